@@ -77,12 +77,13 @@ func TestVerifC14(t *testing.T) {
 
 func c14Status(t *testing.T, rep *vh.Report, quick bool) {
 	type assetSel struct{ root, path string }
-	sels := []assetSel{{vBundledRoot, "testpic_2s"}, {vBundledRoot, "testpic_alt_seg_dur_stl"}}
+	// bbb_hevc_ac3_8s: representation ids "1"/"2" that do not occur in the media file names (video_$Number$.m4s)
+	sels := []assetSel{{vBundledRoot, "testpic_2s"}, {vBundledRoot, "testpic_alt_seg_dur_stl"}, {vBundledRoot, "bbb_hevc_ac3_8s"}}
 	if g := vGenRoot(); g != "" {
 		sels = append(sels, assetSel{g, "g_3x1500ms"}, assetSel{g, "g_1001"})
 	}
 	if !quick {
-		sels = append(sels, assetSel{vBundledRoot, "testpic_6s"}, assetSel{vBundledRoot, "bbb_hevc_ac3_8s"})
+		sels = append(sels, assetSel{vBundledRoot, "testpic_6s"})
 	}
 	cycles := []int{1, 2, 3, 4, 5, 6, 7, 8, 9, 10, 11, 12, 13, 30, 60}
 	codesAll := []int{404, 410, 503, 599}
